@@ -153,7 +153,7 @@ public:
    */
   static double randExponential(double mean)
   {
-    std::exponential_distribution<double> dis(mean);
+    std::exponential_distribution<double> dis(1. / mean);
     return dis(DEFAULT_GENERATOR);
   }
 
